@@ -373,6 +373,8 @@ def text_formats(ctx):
                 return ROOT
             if isinstance(t, App) and t.op == "phi" and {x for _, x in cases(t)} <= roots:
                 return ROOT
+            if isinstance(t, App) and t.op in ("loopvar", "loopout", "maybe_assigned"):
+                return norm(t.args[-1])  # a local name for a part of the description, used inside the loop
             if isinstance(t, App):
                 return App(t.op, [norm(a) for a in t.args], t.node)
             return t
